@@ -21,9 +21,11 @@ class ConcScenario:
     hasher: str = 'identity'
     capacity: Optional[int] = None
     prefill: List[int] = field(default_factory=list)
+    setup_removes: List[int] = field(default_factory=list)      # keys removed sequentially after the prefill (still before the threads start)
     threads: List[List[Tuple]] = field(default_factory=list)     # per thread: [('insert', k) ...] concrete keys
     preemptions: int = 2
     ncpu: int = 1
+    readers: List[int] = field(default_factory=list)          # indices of threads that only read: blocking/spinning there is a violation (C12)
     yield_loads: bool = True            # loads are scheduling points too (False: only writes, CAS, locks, park/unpark)
 
 
@@ -137,6 +139,9 @@ class ConcRunner:
                 vc += 1
                 d0.insert(Tok('K', pk, 'pre%d' % pk, it0.ledger), v)
                 init[pk] = v.id
+            for rk in sc.setup_removes:
+                d0.remove(Tok('K', rk, 'setup', None))
+                init.pop(rk, None)
             d0.unpin()
             it0.ctx = None
             self.steps += it0.steps
@@ -144,8 +149,15 @@ class ConcRunner:
         t_start = time.time()
         budget = float(os.environ.get('VERIF_SCENARIO_BUDGET_S', '900'))
 
+        class _Stop(Exception):
+            pass
+
         def scenario(ctx: PathCtx):
+            if len(self.findings) >= 3:
+                raise _Stop()          # a violation is definitive: no need to enumerate the remaining schedules
             if time.time() - t_start > budget:
+                if self.findings:
+                    raise _Stop()
                 raise C.Inconclusive('scenario time budget (%ds) exhausted after %d schedules' % (budget, self.paths))
             return self.one_schedule(ctx, env, hfn)
 
@@ -153,7 +165,10 @@ class ConcRunner:
             self.paths += 1
             if isinstance(exc, Violation):
                 self.findings.append(Finding(sc.name, exc.kind, str(exc), {}, list(getattr(exc, 'trace', []))))
-        ex.run(scenario, on_path)
+        try:
+            ex.run(scenario, on_path)
+        except _Stop:
+            pass
         self.queries = ex.queries
         self.covered = True
         return self
@@ -170,7 +185,7 @@ class ConcRunner:
         else:
             it0 = Interp(self.prog, ctx, env)
         L = it0.ledger
-        sched = Scheduler(ctx, sc.preemptions, yield_loads=sc.yield_loads)
+        sched = Scheduler(ctx, sc.preemptions, max_steps=1500, yield_loads=sc.yield_loads)
         hist: List[Dict[str, Any]] = []
         vcount = itertools.count(1000)
         try:
@@ -245,6 +260,8 @@ class ConcRunner:
                             rec['op'] = None
                         rec['res_step'] = sched.step
                     dt.unpin()
+                if ti in sc.readers:
+                    sched.readers.add(ti + 1)
                 lt = LThread(ti + 1, 'T%d' % (ti + 1), body)
                 attach(itx, sched, lt)
                 sched.threads.append(lt)
